@@ -26,6 +26,8 @@ def run(model, rep, tier):
     rep.explanation = __doc__.strip()
     rep.not_decided = 'positivity of rates, positive semidefiniteness of the loss tensors, and the sum rule (numerical)'
     cache_discipline(model, rep, [('OnsagerCalc', 'Interstitial', ['losstensors'])])
+    from ._common import scale_free_tests
+    scale_free_tests(model, rep, [('OnsagerCalc', 'Interstitial', 'losstensors')])
     rep.rule('sibling-assembly', 'accumulation statements fed by (jump network, rates, symmetrised rates, site probability) agree '
                                  'between diffusivity / elastodiffusion / losstensors')
     rep.rule('assembly-roles', 'rate matrix: [i,j] += symmetrised rate, [i,i] -= plain rate; bias and bare diffusivity use the plain rate of the initial site')
